@@ -389,6 +389,11 @@ def build_path(pc):
         sols = LayeredRayTracer(b.f, b.t, ice_model=b.ice).solutions
         b.accepts_interp = False
     b.sols = sols
+    if len(sols):
+        # known finding F8 (decided by C10): the uniform and layered paths do not take the
+        # keyword; it is passed to whatever path class accepts it
+        import inspect
+        b.accepts_interp = "attenuation_interpolation" in inspect.signature(sols[0].propagate).parameters
     if b.kind == "basic":
         for q in sols:
             require(math.isfinite(float(q.theta0)), "BasicRayTracer returned a solution with launch angle %r "
@@ -1325,6 +1330,17 @@ def check_layered(case, rec):
     fr = p.fresnel
     if cond >= 1e-5:
         _compare_fresnel(fr, want, cond / max(1, len(kinds)), "chain %r" % (kinds,), b, accept_conjugate=True)
+    # passivity in the form that survives refraction: the power flux through a horizontal
+    # plane is proportional to n cos(theta) |E|^2, so along any chain of reflections and
+    # transmissions |f|^2 n_b cos(theta_b) <= n_a cos(theta_a) (a = launch, b = arrival)
+    d_a = legs[0][1] - legs[0][0]
+    d_b = legs[-1][1] - legs[-1][0]
+    flux_a = b.spec["layers"][legs[0][2]]["n"] * abs(d_a[2]) / float(np.linalg.norm(d_a))
+    flux_b = b.spec["layers"][legs[-1][2]]["n"] * abs(d_b[2]) / float(np.linalg.norm(d_b))
+    for name, r in zip(("f_s", "f_p"), fr):
+        require(abs(complex(r)) ** 2 * flux_b <= flux_a * (1 + 1e-9),
+                "%s = %r carries more power through the arrival plane (n cos = %r) than was launched "
+                "(n cos = %r) along the chain %r; %s", name, r, flux_b, flux_a, kinds, _geom(b))
     # attenuation = exp(-sum over straight legs of int ds / L)
     fs = np.array([0.0, 1e8, 3e8, 1e9])
     att = _attenuation(p, fs)
@@ -1440,8 +1456,9 @@ PROPERTY = Property(
                  floors={"near_vertical_ray": 0.015, "turning_or_reflected": 0.18, "vectors_only": 0.2, "with_signal": 0.18}, classify=_classifier(F13_MARK)),
         SubCheck("layered", layered_cases(), check_layered, quick=160, thorough=6000,
                  rule="LayeredRayTracer over 2-3 uniform layers of different index x signal x polarization; "
-                      "time grid, reference filter, Fresnel product by the reflection and transmission laws, "
-                      "attenuation over the straight legs, basis; non-trivial = at least two legs and an output",
+                      "time grid, reference filter, Fresnel product by the reflection and transmission laws, power "
+                      "flux |f|^2 n cos(theta) not increased, attenuation over the straight legs, basis; "
+                      "non-trivial = at least two legs and an output",
                  floors={"transmit_up": 0.2, "transmit_down": 0.12, "reflect_plain": 0.2, "unpolarized": 0.06}, classify=_classifier(F13_MARK), quick_shards=8),
         SubCheck("layered_passive", layered_cases(), check_layered_passive, quick=160, thorough=6000,
                  rule="same layered solutions; |Fresnel product| <= 1 and output energy <= input energy; "
